@@ -155,6 +155,9 @@ _dbus_object_tree_unref (DBusObjectTree *tree)
     }
 }
 
+static dbus_bool_t attempt_child_removal (DBusObjectSubtree *parent,
+                                          int                child_index);
+
 /** Set to 1 to get a bunch of debug spew about finding the
  * subtree nodes
  */
@@ -259,6 +262,7 @@ find_subtree_recurse (DBusObjectSubtree  *subtree,
   if (create_if_not_found)
     {
       DBusObjectSubtree* child;
+      DBusObjectSubtree* next;
       int child_pos, new_n_subtrees;
 
 #if VERBOSE_FIND
@@ -308,9 +312,16 @@ find_subtree_recurse (DBusObjectSubtree  *subtree,
       subtree->n_subtrees = new_n_subtrees;
       child->parent = subtree;
 
-      return find_subtree_recurse (child,
+      next = find_subtree_recurse (child,
                                    &path[1], create_if_not_found, 
                                    index_in_parent, exact_match);
+
+      /* If we ran out of memory further down, don't leave the node we
+       * just created behind as an empty, unregistered path. */
+      if (next == NULL)
+        attempt_child_removal (subtree, child_pos);
+
+      return next;
     }
   else
     {
